@@ -93,6 +93,23 @@ def gen_case(rng, idx, tier):
             A, B = mk(dA), mk(dB)
             layout = "common-start"
         return {"kind": "polylines", "A": cv.enc_curve(A, "float"), "B": cv.enc_curve(B, "float"), "layout": layout}
+    if r < 0.37:
+        # T-junction (round 8): one end of B lies exactly on an interior point of the segment A, B arriving along A's
+        # normal; the two curves live on different parameter intervals. All coordinates are binary fractions, so the
+        # meeting point is exact in floats: the pair (t*, B's end parameter) must be returned
+        a, b = rng.choice([(F(0), F(1)), (F(-1), F(2)), (F(2), F(5)), (F(0), F(4))])
+        c, d = rng.choice([(F(0), F(2)), (F(-3), F(-1)), (F(0), F(1)), (F(1), F(3))])
+        P0 = [F(rng.randint(-6, 6)), F(rng.randint(-6, 6))]
+        dA = [F(rng.choice([-4, 4, 8])), F(rng.choice([-8, -4, 0, 4]))]
+        ts = rng.choice([F(1, 2), F(1, 4), F(3, 4)])
+        X = [P0[0] + ts * dA[0], P0[1] + ts * dA[1]]
+        k = rng.choice([-2, -1, 1, 2]) * F(1, 4)
+        Y = [X[0] - dA[1] * k, X[1] + dA[0] * k]
+        at_end = rng.random() < 0.7
+        A = {"U": [a, a, b, b], "P": [P0, [P0[0] + dA[0], P0[1] + dA[1]]], "W": None}
+        B = {"U": [c, c, d, d], "P": [Y, X] if at_end else [X, Y], "W": None}
+        return {"kind": "polylines", "A": cv.enc_curve(A, "float"), "B": cv.enc_curve(B, "float"), "layout": "t-junction",
+                "expect": [float(a + (b - a) * ts), float(d if at_end else c)]}
     if r < 0.75:
         na, nb = rng.randint(1, 4), rng.randint(1, 4)
         A = polyline(rng, na, ((-10, 10), (-10, 10)))
@@ -229,6 +246,13 @@ def run_case(case, ctx):
         if mind is not None and mind > 1.5e-5 and not expected:
             ctx.count("expected_empty")
             ctx.check(len(pairs) == 0, "inter:nonempty-for-disjoint:near-miss", f"curves pass at distance {mind!r} without meeting but {pairs} was returned")
+    elif case.get("layout") == "t-junction":
+        # soundness, range and no-duplicates are judged above; completeness is NOT demanded here: the statement promises
+        # every *transversal crossing*, a T-junction is a touching at an end, and the unchanged library returns it in
+        # about 70 % of these cases only (observed, recorded in the counters) - DESIGN section 8, eighth round
+        ctx.count("t_junctions")
+        e = case["expect"]
+        ctx.count("t_junction_returned" if any(math.dist(p, e) <= 1e-6 for p in pairs) else "t_junction_not_returned")
     elif kind == "polylines" and not amb:
         ctx.count("polyline_exact_sets")
         exp = [(float(t), float(u)) for t, u in expected]
